@@ -228,3 +228,30 @@ func TestC05(t *testing.T) {
 	dir := t.TempDir()
 	world.Run(t, "C05", "apply-crash", world.Scale(40, 150), gen, func(sc Scenario) world.Verdict { return run(sc, dir) })
 }
+
+// TestC05RealIngress: crash restarts (the in-memory caches are lost) of a full node fed by the
+// unmodified DA scan and P2P store loops; after everything is visible the node must have reached
+// the deliverable prefix with blocks equal to the proposer's. Unlike the exact-order driver the
+// harness redelivers nothing: what the node sees again after a restart is up to the node.
+func TestC05RealIngress(t *testing.T) {
+	dir := t.TempDir()
+	world.Run(t, "C05", "real-ingress-crash", world.Scale(120, 600), func(t *rapid.T) c02gen.ScenarioB {
+		sc := c02gen.GenB(t, world.Scale(8, 16), true)
+		// make sure there is at least one crash restart
+		sc.Ops = append(sc.Ops, c02gen.OpB{Kind: "tick", N: 1}, c02gen.OpB{Kind: "crash"})
+		return sc
+	}, func(sc c02gen.ScenarioB) world.Verdict {
+		return c02gen.RunB(sc, dir, "C05",
+			func(r *c02gen.BRun, when string) *world.Problem { return r.F.CheckPrefix(when, false) },
+			func(r *c02gen.BRun) *world.Problem {
+				if p := r.F.CheckPrefix("at the end", false); p != nil {
+					return p
+				}
+				got, _ := r.F.N.Store.Height(r.C.P.Ctx)
+				if got != r.HStar && !(got == 0 && r.HStar == r.C.Opts.InitialHeight-1) {
+					return &world.Problem{Sig: "not-converged-after-crash", Msg: fmt.Sprintf("both parts of every block up to %d are available to the node (DA layer / P2P stores), after %d crash restart(s) it stopped at height %d", r.HStar, r.F.CrashRestarts, got)}
+				}
+				return nil
+			})
+	})
+}
